@@ -458,6 +458,7 @@ class World:
             raise TypeError("gethostbyname() argument 1 must be str, bytes or bytearray")
         if "\x00" in name:
             raise ValueError("embedded null character")
-        if name in self.dns:
-            return self.dns[name]
+        for known, addr in self.dns.items():       # host names are case-insensitive
+            if known.lower() == name.lower():
+                return addr
         raise _real_socket.gaierror(-2, "Name or service not known")
